@@ -246,6 +246,10 @@ class JSONSerialization(Serialization):
         try:
             allowed_types = [{'type': cls.json_schema_literal_types[type(obj)]}
                              for obj in p.objects]
+            if not allowed_types:
+                # no objects declared: any value is accepted (and an empty
+                # anyOf is not a valid schema)
+                return {}
             schema = {'anyOf': allowed_types}
             schema['enum'] = p.objects
             return schema
@@ -261,6 +265,10 @@ class JSONSerialization(Serialization):
         try:
             allowed_types = [{'type': cls.json_schema_literal_types[type(obj)]}
                              for obj in p.objects.values()]
+            if not allowed_types:
+                # no objects declared: any value is accepted (and an empty
+                # anyOf is not a valid schema)
+                return {}
             schema = {'anyOf': allowed_types}
             schema['enum'] = p.objects
             return schema
